@@ -434,7 +434,7 @@ func (l *Linter) lintFunctionCallExpression(exp *ast.FunctionCallExpression, ctx
 	}
 
 	return l.lintFunctionArguments(fn, functionMeta{
-		name:      exp.Function.String(),
+		name:      exp.Function.Value, // String() includes the comments around the name
 		token:     exp.Function.GetMeta().Token,
 		arguments: exp.Arguments,
 		meta:      exp.Meta,
